@@ -53,11 +53,40 @@ class FBox(Box):
         return self.val != 0
 
 
+IOPS = {"proxy_iadd": "+=", "proxy_isub": "-=", "proxy_ior": "|=", "proxy_imul": "*="}
+RTE, TYE, IXE, KYE, OTHER = -1, -2, -3, -4, -9  # codes of spec/locals/Locals.tla
+
+
+def iop_operand(op, v):
+    """Operand of an augmented assignment (Locals.tla: IopArgs); fresh objects each time."""
+    if op == "proxy_imul":
+        return 2
+    return {1: 1, 2: "z", 3: (7,), 4: frozenset({7}), 5: [7, 7]}[v]
+
+
+def _code(fn):
+    """Result of a read as an int; failures as the code of the exception class."""
+    try:
+        v = fn()
+        return v if isinstance(v, int) and not isinstance(v, bool) else int(bool(v)) if isinstance(v, bool) else OTHER
+    except RuntimeError:
+        return RTE
+    except TypeError:
+        return TYE
+    except IndexError:
+        return IXE
+    except KeyError:
+        return KYE
+    except Exception:
+        return OTHER
+
+
 def make_objects(n):
     """The object universe of spec/locals/Locals.tla (KindOf / Init0), identifiers 1..n.  Some are
     always truthy, some always falsy (0, "", [], {}), some change (FBox, a list emptied through a
     proxy).  Objects are identified by `is`."""
-    objs = {1: Box(1), 2: FBox(2), 3: [7, 7], 4: Box(4), 5: 0, 6: "", 7: [], 8: {}}
+    objs = {1: Box(1), 2: FBox(2), 3: [7, 7], 4: Box(4), 5: 0, 6: "", 7: [], 8: {},
+            9: 3, 10: "ab", 11: (1, 2), 12: frozenset({1})}
     return {i: objs[i] for i in range(1, n + 1)}
 
 
@@ -130,6 +159,19 @@ class Env:
             if op == "proxy_clear":
                 self.proxies[o["k"]].clear()
                 return _ok()
+            if op in IOPS:
+                # augmented assignment on the *name* that holds the proxy: whatever the operator
+                # returns is what the name holds afterwards (it must still be the proxy)
+                x = iop_operand(op, o["v"])
+                if op == "proxy_iadd":
+                    self.proxies[o["k"]] += x
+                elif op == "proxy_isub":
+                    self.proxies[o["k"]] -= x
+                elif op == "proxy_ior":
+                    self.proxies[o["k"]] |= x
+                else:
+                    self.proxies[o["k"]] *= x
+                return _ok()
         except Exception as e:  # recorded, judged by TLC
             return {"tag": "exc", "id": 0, "exc": type(e).__name__}
         raise MachineryError(f"unknown operation {op!r}")
@@ -160,7 +202,7 @@ class Env:
     def _state(obj):
         """The object's state as the model sees it: field `val`, or the length of a container."""
         try:
-            v = obj.val if isinstance(obj, Box) else len(obj) if isinstance(obj, (list, dict, str)) else 0
+            v = obj.val if isinstance(obj, Box) else len(obj) if isinstance(obj, (list, dict)) else 0
             return v if isinstance(v, int) and not isinstance(v, bool) else -1
         except Exception:
             return -1
@@ -189,8 +231,14 @@ class Env:
     def _observe_proxy(self, k, p):
         """Reads through one proxy in the current context.  Codes: 0 = RuntimeError (the proxy says
         it is unbound), -1 = any other failure."""
-        r = repr(p)
-        e = {"k": k, "truthy": bool(p), "unb": r == UNBOUND_REPR}
+        from werkzeug.local import LocalProxy
+
+        try:
+            r = repr(p)
+            truthy = bool(p)
+        except Exception:
+            r, truthy = "", False
+        e = {"k": k, "isproxy": type(p) is LocalProxy, "truthy": truthy, "unb": r == UNBOUND_REPR}
         obj = None
         try:
             obj = p._get_current_object()
@@ -229,11 +277,47 @@ class Env:
             e["val"] = 0
         except Exception:
             e["val"] = -1
+        # other forwarded dunders, each computed through the proxy in this context
+        other = 0 if obj is None else obj
+        # [len, iter, [0], 7 in, +, hash, str] as codes
+        e["fw"] = [_code(lambda: len(p)), _code(lambda: len(list(iter(p)))),
+                   _code(lambda: (p[0], 1)[1]), _code(lambda: 7 in p),
+                   _code(lambda: _size(p + other)), _code(lambda: (hash(p), 1)[1]),
+                   _code(lambda: (str(p), 1)[1])]
+        # the universe objects that ==, str() and hash() through the proxy cannot tell from it
+        try:
+            sp = str(p)
+            try:
+                hp = hash(p)
+            except TypeError:
+                hp = None
+            e["ag"] = [i for i, b in self.boxes.items()
+                       if _is_true(lambda: p == b) and str(b) == sp and _hash_or_none(b) == hp]
+        except Exception:
+            e["ag"] = []
         return e
 
 
 def _ok():
     return {"tag": "ok", "id": 0, "exc": ""}
+
+
+def _size(v):
+    return v if isinstance(v, int) else len(v)
+
+
+def _hash_or_none(b):
+    try:
+        return hash(b)
+    except TypeError:
+        return None
+
+
+def _is_true(fn):
+    try:
+        return fn() is True
+    except Exception:
+        return False
 
 
 def _drain(stack):
@@ -417,7 +501,7 @@ def _process_loop():
     return _LOOP[pid]
 
 
-def run_trace(real, ops, *, names=("x", "y", "z"), nboxes=8, made=()):
+def run_trace(real, ops, *, names=("x", "y", "z"), nboxes=12, made=()):
     """Execute `ops` in the given realisation; returns the trace lines (cfg + one per op)."""
     env = Env(names, nboxes, made)
     world = AsyncioWorld(env, _process_loop()) if real == "asyncio" else WORLDS[real](env)
@@ -522,7 +606,7 @@ class LTS:
 
 
 # ------------------------------------------------------------------------------ random schedules
-def random_ops(rng, length, *, nctx=3, names=("x", "y", "z"), nboxes=8, vals=(0, 1, 2, 7), made=(),
+def random_ops(rng, length, *, nctx=3, names=("x", "y", "z"), nboxes=12, vals=(0, 1, 2, 7), made=(),
                max_stack=5):
     """A seeded random behaviour of the model's vocabulary (tracks only what is needed to keep
     operations enabled: which contexts exist, which proxies exist, stack depth is irrelevant)."""
@@ -531,6 +615,7 @@ def random_ops(rng, length, *, nctx=3, names=("x", "y", "z"), nboxes=8, vals=(0,
     kinds = list(names) + [TOP]
     depth = {1: 0}
     ops = []
+    nmul = 0
     while len(ops) < length:
         c = rng.choice(alive)
         w = rng.random()
@@ -569,12 +654,19 @@ def random_ops(rng, length, *, nctx=3, names=("x", "y", "z"), nboxes=8, vals=(0,
             k = rng.choice(kinds)
             ops.append(mkop(c, "mkproxy", k=k))
             made.add(k)
-        elif w < 0.89:
+        elif w < 0.875:
             ops.append(mkop(c, "proxy_read", k=rng.choice(sorted(made))))
-        elif w < 0.95:
+        elif w < 0.91:
             ops.append(mkop(c, "proxy_mutate", k=rng.choice(sorted(made)), v=rng.choice(vals)))
-        elif w < 0.98:
+        elif w < 0.93:
             ops.append(mkop(c, "proxy_pop", k=rng.choice(sorted(made))))
-        else:
+        elif w < 0.94:
             ops.append(mkop(c, "proxy_clear", k=rng.choice(sorted(made))))
+        else:
+            op = rng.choice(["proxy_iadd", "proxy_iadd", "proxy_isub", "proxy_ior", "proxy_imul"])
+            if op == "proxy_imul":
+                if nmul >= 3:  # a list doubles each time: keep it small
+                    continue
+                nmul += 1
+            ops.append(mkop(c, op, k=rng.choice(sorted(made)), v=2 if op == "proxy_imul" else rng.randint(1, 5)))
     return ops
